@@ -166,6 +166,7 @@ Proof.
   2:{ inv H. repeat split; auto. }
   destruct (is_tomb x); [inv H; rewrite E; repeat split; auto|].
   destruct (sstate_eqb (s_state x) Up); [inv H; rewrite E; repeat split; auto|].
+  destruct (negb (tree_count s id =? 0)); [inv H; rewrite E; repeat split; auto|].
   destruct (put_locked s id (with_state x Tombstone (s_pd x)) f 0) as [s1 ok] eqn:Epl. inv H.
   destruct (put_locked_full _ _ _ _ _ _ _ Epl) as (A&B&C&D&F).
   destruct (same_store_version_change s1) as (S1&S2&S3&S4).
@@ -410,6 +411,7 @@ Proof.
   unfold do_bury. destruct (sv s id) as [x|] eqn:E; intros H; [|inv H; apply wf_rel_refl].
   destruct (is_tomb x); [inv H; apply wf_rel_refl|].
   destruct (sstate_eqb (s_state x) Up); [inv H; apply wf_rel_refl|].
+  destruct (negb (tree_count s id =? 0)); [inv H; apply wf_rel_refl|].
   destruct (put_locked s id (with_state x Tombstone (s_pd x)) f 0) as [s1 ok] eqn:Epl. inv H.
   eapply wf_rel_trans; [eapply put_locked_wf; [exact Epl|exact E|reflexivity|reflexivity]|].
   apply wf_rel_same_store, same_store_version_change.
